@@ -23,10 +23,11 @@ EXPLANATION = (
     "parameter the check treats as a literal is re.escape-d before being embedded in a regex, a pattern parameter is "
     "embedded grouped; (R7) in the series / dataframe strategies nothing transforms the strategy (null masks, index "
     "attachment, mapping) after a check-based fallback filter, so the object the filter accepted is the object drawn; (R8) "
-    "every column listed in DataFrameSchema.unique is generated unique (membership test, not a single designated column); (R9) a row strategy passed to data_frames(rows=...) also carries each column's own checks. NOT decided: that draws validate (hypothesis search + numpy/pandas dtype conversion)."
+    "every column listed in DataFrameSchema.unique is generated unique (membership test, not a single designated column); (R9) a row strategy passed to data_frames(rows=...) also carries each column's own checks. (R10) definite assignment: no function of pandera/strategies/ reads a local that a branch-only path from its entry leaves unassigned (CFG may-analysis, optimistic about try bodies and loop bodies, correlated guards pruned) - an UnboundLocalError there would escape example(). " 
+    "NOT decided: that draws validate (hypothesis search + numpy/pandas dtype conversion)."
 )
 LEVEL_RULE = "one obligation per (check strategy, path) / parameter / fallback site"
-FLOORS = {"R1": 14, "R2": 30, "R3": 14, "R4": 1, "R5": 3, "R6": 2, "R7": 3, "R8": 1, "R9": 1}
+FLOORS = {"R1": 14, "R2": 30, "R3": 14, "R4": 1, "R5": 3, "R6": 2, "R7": 3, "R8": 1, "R9": 1, "R10": 1}
 
 PD = "pandera/backends/pandas/builtin_checks.py"
 ST = "pandera/strategies/pandas_strategies.py"
@@ -548,6 +549,8 @@ def r9_row_strategy_keeps_column_checks(ctx, stm):
 
 
 def run(ctx):
+    from ..defassign import check_modules
+    check_modules(ctx, "R10", ('pandera/strategies/',), "escapes example() / strategy()")
     ix = ctx.ix
     stm = ix.module(ST)
     checks = check_functions(ix, PD)
